@@ -37,6 +37,7 @@ def instances(tier):
     for g in (4, 5):
         for k in ("ac", "zone", "timer", "error", "error_silent", "version"):
             out.append({"kind": k, "gen": g})
+        out.append({"kind": "unsub_during_handler", "gen": g})
         if tier == "thorough":
             # the other entities as target: second AC, every other zone (owned by either AC)
             for k in ("ac", "timer", "error", "error_silent"):
@@ -65,7 +66,61 @@ def _b(x):
     return bool(x) if isinstance(x, SymBool) else x
 
 
+def _unsub_during_handler(ctx, p):
+    """A status frame with a new error code makes the client ask for the error text; that write is held up (back-pressure)
+    while the handler is suspended in it. A subscriber that unsubscribes in the meantime is not called any more, the
+    others are - for the status change and for the error text."""
+    g = Gen(p["gen"])
+    inst = Installation.simple(g.n, n_acs=2, zones_per_ac=2)
+    inst.errors[0] = "ER: 0001"
+    t_unsub = ctx.real("t_unsub", 0, 1)          # relative to the frame's arrival; the write is held for 0.5 s
+    ctx.assume(t_unsub != 0.5)
+    log = []
+    with ApiRig(ctx, g, inst) as rig:
+        con = rig.console
+        rig.start()
+        rig.run(1.0)
+        ctx.check(rig.init_result is True, "unsubscribe_stops", detail="handshake failed")
+        ac0 = rig.ac(0)
+        leaver, stayer = Rec("leaver", log), Rec("stayer", log)
+        ac0.subscribe(leaver)
+        ac0.subscribe(stayer)
+        hold = {"on": True}
+
+        def on_drain(conn, n):
+            if hold["on"] and con.requests and con.requests[-1][1] == "error":
+                hold["on"] = False
+                return 0.5
+            return None
+
+        rig.net.on_drain = on_drain
+        rec = list(inst.ac_status[0])
+        rec[6], rec[7] = 0x12, 0x34
+        inst.ac_status[0] = rec
+        t0 = 2.0
+        times = {}
+        rig.loop.vt_call_at(t0, lambda: con.push(con.ac_status_frame(pid=0x61, only=[0])))
+
+        def leave():
+            times["n_leaver_before"] = [c[0] for c in log].count("leaver")
+            ac0.unsubscribe(leaver)
+
+        rig.loop.vt_call_at(t0 + t_unsub, leave)
+        rig.run(t0 + 3.0)
+        names = [c[0] for c in log]
+        after = names.count("leaver") - times.get("n_leaver_before", 0)
+        detail = {"calls": log, "leaver_calls_after_unsubscribe": after}
+        ctx.observe("calls", sorted(names))          # (the order among subscribers of one notification is set order: not observable)
+        ctx.check(after == 0, "unsubscribe_stops", detail=detail)
+        ctx.check(names.count("stayer") >= 1, "change_notifies", detail=detail)
+        ctx.check(not rig.task_failures(), "later_frames_still_notify", detail="task failure")
+    for lab in expect_labels("quick"):
+        ctx.reach(lab)
+
+
 def run(ctx, p):
+    if p["kind"] == "unsub_during_handler":
+        return _unsub_during_handler(ctx, p)
     g = Gen(p["gen"])
     kind = p["kind"]
     inst = Installation.simple(g.n, n_acs=2, zones_per_ac=2)
@@ -109,6 +164,15 @@ def run(ctx, p):
             ac0.subscribe(probe_gen)
         ac1.subscribe(other_ac)
         ac1.subscribe_ac_state(other_ac)
+        # the same callback registered in both roles and withdrawn from one of them: the two registrations are independent
+        dual_state, dual_gen = Rec("dual_state", log), Rec("dual_gen", log)
+        if kind in ("ac", "timer", "zone"):
+            ac0.subscribe(dual_state)
+            ac0.subscribe_ac_state(dual_state)
+            ac0.unsubscribe(dual_state)              # remains an AC-state subscriber
+            ac0.subscribe_ac_state(dual_gen)
+            ac0.subscribe(dual_gen)
+            ac0.unsubscribe_ac_state(dual_gen)       # remains a general subscriber
         expect_probe = arrangement != "unsub"
 
         def push(raw):
@@ -210,9 +274,15 @@ def run(ctx, p):
                 ok_state = (names.count("ac_state") == exp_state) if kind in ("ac", "timer") else ("ac_state" in names)
                 ctx.check(ok_state and "other_ac" not in names, "change_notifies" if exp_state else "unsubscribe_stops",
                           detail=dict(detail, calls=calls, state_arrangement=state_arr, why="AC-state subscriber / other AC"))
+            if kind in ("ac", "timer"):
+                ctx.check(names.count("dual_state") == 1 and names.count("dual_gen") == 1, "unsubscribe_stops",
+                          detail=dict(detail, calls=calls, why="callback registered in both roles, withdrawn from one"))
+            if kind == "zone":
+                ctx.check("dual_gen" in names and "dual_state" not in names, "zone_reaches_ac_general_only",
+                          detail=dict(detail, calls=calls, why="callback registered in both roles, withdrawn from one"))
             if kind == "zone":
                 ctx.check("ac_general" in names and "ac_state" not in names and "other_ac" not in names
-                          and all(c[1] == (tz if c[0] in ("zone", "raiser") else ta) for c in calls),
+                          and all(c[1] == (tz if c[0] in ("zone", "raiser") else ta) for c in calls if not c[0].startswith("dual")),
                           "zone_reaches_ac_general_only", detail=dict(detail, calls=calls))
             if with_raiser:
                 ctx.check("raiser" in names and (names.count(main) >= 1 or not expect_probe), "raiser_does_not_starve", detail=dict(detail, calls=calls))
